@@ -40,6 +40,10 @@ type Tmpl struct {
 	Carrier    string   `json:"carrier,omitempty"`    // named | map | struct
 	CarrierPtr bool     `json:"carrierptr,omitempty"` // the struct carrier is passed by pointer
 	NoParen    bool     `json:"noparen,omitempty"`    // clause.Expr{WithoutParentheses: true}
+	// Driver: the text uses the driver's own named placeholders (":name"); the values are passed as
+	// sql.Named(...) in the order ArgOrder and must reach the driver as named arguments
+	Driver   bool     `json:"driver,omitempty"`
+	ArgOrder []string `json:"argorder,omitempty"`
 }
 
 // Named reports whether the template uses @name arguments.
@@ -225,6 +229,9 @@ func (t *Tmpl) String() string {
 	}
 	if t.Named() {
 		carrier := t.Carrier
+		if t.Driver {
+			carrier = "driver-named" + fmt.Sprint(t.ArgOrder)
+		}
 		if t.CarrierPtr {
 			carrier = "&" + carrier
 		}
